@@ -39,6 +39,11 @@ def run_api(chk, prop, variants, san="asan", nshards=16, extra_args=None, stall_
         for c in sr.crashes:
             if c.get("kind") == "harness" or "harness-bug@" in str(c.get("key")):
                 raise HarnessFailure("harness failure in %s: %s" % (prop, (c.get("stderr") or "")[-2000:]))
+            dj = _j(c.get("desc"))
+            if prop == "C12" and c["kind"] == "deadlock" and isinstance(dj, dict) and dj.get("verify_result") is True:
+                chk.add_violation("C12|disagree|verify=1|decrypt-hangs|%s" % dj.get("kind", "?"),
+                                  "verification accepted a file on which decryption never returns", variant=vtag, case=c.get("idx"), case_desc=dj)
+                continue
             if not crash_is_violation:
                 # a crash / hang is outside this property's statement (it belongs to C11 / C04): the case is
                 # not decided here, and is reported as such
